@@ -195,3 +195,76 @@ Qed.
 
 (* full matrix product, cell (r,c) *)
 Definition mmul (n : nat) (X Y : nat -> nat -> R) (r c : nat) : R := rsum (fun j => X r j * Y j c) n.
+
+(* ------------------------------------------------------------ more loop lemmas *)
+Lemma forM_ext {St} (f g : nat -> St -> option St) :
+  forall cnt lo s, (forall i s, (lo <= i < lo + cnt)%nat -> f i s = g i s) -> forM lo cnt f s = forM lo cnt g s.
+Proof.
+  induction cnt as [|k IH]; intros lo s H; simpl; auto.
+  rewrite H by lia. destruct (g lo s); auto. apply IH. intros. apply H. lia.
+Qed.
+
+Lemma for_range_ext {St} lo hi (f g : nat -> St -> option St) s :
+  (forall i s, (lo <= i < hi)%nat -> f i s = g i s) -> for_range lo hi f s = for_range lo hi g s.
+Proof. intros H. unfold for_range. apply forM_ext. intros. apply H. lia. Qed.
+
+(* indicator sums: sum of f j over lo <= j < hi *)
+Definition isum (f : nat -> R) (lo hi : nat) : R := rsum (fun j => if Nat.leb lo j then f j else 0) hi.
+
+Lemma isum_S f lo hi : (lo <= hi)%nat -> isum f lo (S hi) = isum f lo hi + f hi.
+Proof. intros H. unfold isum. rewrite rsum_S. destruct (Nat.leb_spec lo hi); [reflexivity|lia]. Qed.
+
+Lemma isum_empty f lo hi : (hi <= lo)%nat -> isum f lo hi = 0.
+Proof. intros H. unfold isum. apply rsum_zero. intros i Hi. destruct (Nat.leb_spec lo i); [lia|reflexivity]. Qed.
+
+Lemma isum_ext f g lo hi : (forall i, (lo <= i < hi)%nat -> f i = g i) -> isum f lo hi = isum g lo hi.
+Proof. intros H. unfold isum. apply rsum_ext. intros i Hi. destruct (Nat.leb_spec lo i); [apply H; lia|reflexivity]. Qed.
+
+(* ------------------------------------------------- filling an n x n array cell by cell *)
+Section Fill.
+Variable n : nat.
+
+Lemma fill_row_spec (g : nat -> option R) (gv : nat -> R) r (X0 : list R) :
+  (forall c, (c < n)%nat -> g c = Some (gv c)) -> length X0 = (n * n)%nat -> (r < n)%nat ->
+  exists X, for_range 0 n (fun c X => do v <- g c; wr X (n * r + c) v) X0 = Some X /\ length X = (n * n)%nat /\
+    forall r' c, (r' < n)%nat -> (c < n)%nat -> mg n X r' c = if Nat.eqb r' r then gv c else mg n X0 r' c.
+Proof.
+  intros Hg L0 Hr.
+  destruct (for_range_inv
+              (fun k (X : list R) => length X = (n * n)%nat /\
+                 forall r' c, (r' < n)%nat -> (c < n)%nat ->
+                   mg n X r' c = if (Nat.eqb r' r && Nat.ltb c k)%bool then gv c else mg n X0 r' c)
+              0 n (fun c X => do v <- g c; wr X (n * r + c) v) X0) as (X & E & LX & P).
+  - lia.
+  - split; auto. intros r' c _ _. rewrite Bool.andb_false_r. reflexivity.
+  - intros k X [_ Hk] [LX P]. rewrite Hg by auto.
+    rewrite wr_some by (rewrite LX; apply idx_lt; auto).
+    eexists. split; [reflexivity|]. split; [now rewrite upd_length|].
+    intros r' c Hr' Hc. rewrite mg_upd by auto. rewrite P by auto.
+    destruct (Nat.eqb_spec r' r), (Nat.eqb_spec c k), (Nat.ltb_spec c k), (Nat.ltb_spec c (S k));
+      simpl; subst; try lia; reflexivity.
+  - exists X. split; [exact E|]. split; auto.
+    intros r' c Hr' Hc. rewrite P by auto.
+    destruct (Nat.eqb_spec r' r), (Nat.ltb_spec c n); simpl; try lia; reflexivity.
+Qed.
+
+Lemma fill_spec (g : nat -> nat -> option R) (gv : nat -> nat -> R) (X0 : list R) :
+  (forall r c, (r < n)%nat -> (c < n)%nat -> g r c = Some (gv r c)) -> length X0 = (n * n)%nat ->
+  exists X, for_range 0 n (fun r X => for_range 0 n (fun c X => do v <- g r c; wr X (n * r + c) v) X) X0 = Some X /\
+    length X = (n * n)%nat /\ forall r c, (r < n)%nat -> (c < n)%nat -> mg n X r c = gv r c.
+Proof.
+  intros Hg L0.
+  destruct (for_range_inv
+              (fun k (X : list R) => length X = (n * n)%nat /\
+                 forall r c, (r < k)%nat -> (c < n)%nat -> mg n X r c = gv r c)
+              0 n (fun r X => for_range 0 n (fun c X => do v <- g r c; wr X (n * r + c) v) X) X0) as (X & E & LX & P).
+  - lia.
+  - split; auto. intros; lia.
+  - intros k X [_ Hk] [LX P].
+    destruct (fill_row_spec (g k) (gv k) k X) as (X' & E' & LX' & P'); auto.
+    exists X'. split; [exact E'|]. split; auto.
+    intros r c Hr Hc. rewrite P' by (auto; lia).
+    destruct (Nat.eqb_spec r k); auto. apply P; auto; lia.
+  - exists X. auto.
+Qed.
+End Fill.
